@@ -72,6 +72,7 @@ func main() {
 	flag.Parse()
 	if *genBaseline {
 		set := map[string]bool{}
+		info := map[string]string{}
 		for _, cfg := range [][2]string{{"linux", "amd64"}, {"linux", "386"}, {"windows", "amd64"}, {"illumos", "amd64"}} {
 			p, err := an.Load(*repo, cfg[0], cfg[1], nil)
 			if err != nil {
@@ -81,13 +82,23 @@ func main() {
 			for _, k := range an.BaselineKeys(p.Roots) {
 				set[k] = true
 			}
+			for k, v := range an.BaselineLines(p.Roots) {
+				if _, ok := info[k]; !ok {
+					info[k] = v
+				}
+			}
 		}
 		var keys []string
 		for k := range set {
 			keys = append(keys, k)
 		}
 		sort.Strings(keys)
-		hdr := "# functions declared in non-test files of the pinned tree (union over linux/amd64, linux/386, windows/amd64, illumos/amd64)\n# a function NOT listed here is treated as an extracted helper and inlined before analysis (tool/an/normalize.go)\n"
+		for i, k := range keys {
+			if v, ok := info[k]; ok {
+				keys[i] = k + "\t" + v
+			}
+		}
+		hdr := "# functions declared in non-test files of the pinned tree (union over linux/amd64, linux/386, windows/amd64, illumos/amd64)\n# a function NOT listed here is treated as an extracted helper and inlined before analysis (tool/an/normalize.go)\n# columns: key, package, flattened signature, display name – used to recognise a renamed function (tool/an/rename.go)\n"
 		os.WriteFile(filepath.Join(*verif, "baseline_funcs.txt"), []byte(hdr+strings.Join(keys, "\n")+"\n"), 0o644)
 		fmt.Println(len(keys), "functions")
 		return
